@@ -43,6 +43,9 @@ type c14Case struct {
 	// PlantDir: the link that appears points to the outside directory (planted at a directory path the copy is about
 	// to create) instead of the outside file
 	PlantDir bool `json:"plantdir,omitempty"`
+	// DstHL: these destination paths are second names of the outside file /outside/f (a cp -al / rsync --link-dest
+	// snapshot): replacing such a name is the copy's business, the outside file's bytes, mode, owner and times are not
+	DstHL []string `json:"dsthl,omitempty"`
 	// Disk: the sandbox lies on a disk file system (inode numbers are handed out again at once)
 	Disk bool `json:"disk,omitempty"`
 }
@@ -58,6 +61,9 @@ func (c c14Case) String() string {
 	}
 	if c.Disk {
 		s += " sandbox-on-disk-filesystem"
+	}
+	if len(c.DstHL) > 0 {
+		s += fmt.Sprintf(" destination-names-of-the-outside-file=%q", c.DstHL)
 	}
 	return s
 }
@@ -113,7 +119,7 @@ func resetDir(dir string, t fsmodel.Tree) error {
 	return fsmodel.Utime(dir, fsmodel.T0)
 }
 
-func renderTree(root, sub string) (string, error) {
+func renderTree(root, sub string, loose ...string) (string, error) {
 	var sb strings.Builder
 	snap, err := fsmodel.Snapshot(filepath.Join(root, sub))
 	if err != nil {
@@ -125,20 +131,39 @@ func renderTree(root, sub string) (string, error) {
 	}
 	fmt.Fprintf(&sb, "%s ino=%d\n", n.String(), n.Ino)
 	for _, n := range snap {
+		isLoose := false
+		for _, l := range loose {
+			isLoose = isLoose || n.Path == l
+		}
+		if isLoose {
+			// an inode that has a name inside the destination: link count and change time move when that name is replaced
+			n.HL = 0
+			fmt.Fprintf(&sb, "%s/%s ino=%d\n", sub, n.String(), n.Ino)
+			continue
+		}
 		fmt.Fprintf(&sb, "%s/%s ino=%d ctime=%d nlink=%d\n", sub, n.String(), n.Ino, n.Ctime, n.Nlink)
 	}
 	return sb.String(), nil
 }
 
-func judgeC14(root string, c c14Case) (string, string) {
+func judgeC14Raw(root string, c c14Case) (string, string) {
 	if err := resetDir(filepath.Join(root, "srcroot"), c.Src); err != nil {
 		return "infra", "src: " + err.Error()
 	}
 	if err := resetDir(filepath.Join(root, "dstroot"), c.Dst); err != nil {
 		return "infra", "dst: " + err.Error()
 	}
+	var loose []string
+	for _, hp := range c.DstHL {
+		t := filepath.Join(root, "dstroot", hp)
+		os.Remove(t)
+		if err := os.Link(filepath.Join(root, "outside/f"), t); err != nil {
+			return "infra", "dst hard link: " + err.Error()
+		}
+		loose = []string{"f"}
+	}
 	state := func() (string, error) {
-		a, err := renderTree(root, "outside")
+		a, err := renderTree(root, "outside", loose...)
 		if err != nil {
 			return "", err
 		}
@@ -215,6 +240,13 @@ func judgeC14(root string, c c14Case) (string, string) {
 		return "infra", err.Error()
 	}
 	for _, n := range dst {
+		still := false
+		for _, hp := range c.DstHL {
+			still = still || (n.Path == hp && n.Nlink > 1) // a name of the outside file that the copy left alone
+		}
+		if still {
+			continue
+		}
 		if n.Kind == fsmodel.File && strings.HasPrefix(string(n.Data), "OUTSIDE:") {
 			key := "outside-bytes-copied"
 			return key, fmt.Sprintf("dstroot/%s holds %q: bytes from outside the source root (Copy returned %v)", n.Path, n.Data, cerr)
@@ -236,6 +268,12 @@ func c14Cases(tier string) []c14Case {
 			if t := plant(dstBase, p, tg); t != nil {
 				dstV = append(dstV, t)
 			}
+		}
+	}
+	// links to the outside file under the names a writer might use for its temporaries next to b and a/f
+	for _, tn := range []string{".b.tmp", "b.tmp", "b~", ".tmp.b", ".b.swp", "a/.f.tmp", "a/f.tmp", "a/f~"} {
+		if t := plant(dstBase, tn, "/outside/f"); t != nil {
+			dstV = append(dstV, t)
 		}
 	}
 	// two directories whose contents merge when both match a wildcard: the first brings a link to an outside file
@@ -328,6 +366,16 @@ func c14Cases(tier string) []c14Case {
 				for o := 0; o < 8; o++ {
 					out = append(out, c14Case{Src: srcBase, Dst: dstBase, SrcArg: "/", DstArg: da, DirC: true, Include: inc, Follow: o&1 != 0, Repl: o&2 != 0, Stamp: o&4 != 0,
 						Plant: filepath.Join(da, pl)})
+				}
+			}
+		}
+	}
+	// destination entries that are second names of an outside file: every way of copying onto them
+	for _, hl := range [][]string{{"b"}, {"a/f"}, {"b", "a/f"}} {
+		for _, sa := range []string{"/", "b", "a/f", "a", "*", "a/*"} {
+			for _, da := range []string{"/", "a", "a/f", "b"} {
+				for o := 0; o < 16; o++ {
+					out = append(out, c14Case{Src: srcBase, Dst: dstBase, SrcArg: sa, DstArg: da, Follow: o&1 != 0, Repl: o&2 != 0, DirC: o&4 != 0, Stamp: o&8 != 0, Wild: hasWild(sa), DstHL: hl})
 				}
 			}
 		}
@@ -547,4 +595,14 @@ func replayC14(raw json.RawMessage) string {
 		return ""
 	}
 	return o.Viol[0].Key + ": " + o.Viol[0].Msg
+}
+
+// judgeC14 is judgeC14Raw with a panic of the code under test turned into a verdict.
+func judgeC14(root string, c c14Case) (k, m string) {
+	defer func() {
+		if r := recover(); r != nil {
+			k, m = "panic", fmt.Sprintf("the code under test panicked: %v", r)
+		}
+	}()
+	return judgeC14Raw(root, c)
 }
